@@ -69,8 +69,20 @@ func (seg Segment) Raycast(point Point) RaycastResult {
 		// below would never end.
 		return RaycastResult{false, false}
 	}
-	for p.Y == a.Y || p.Y == b.Y {
-		p.Y = math.Nextafter(p.Y, math.Inf(1))
+	// An end point level with the point counts as below it. Decide those
+	// cases on the ordinates as they are: moving the point up to the next
+	// float steps over a segment whose ends are one ulp apart in y.
+	lo, hi := a, b
+	if lo.Y > hi.Y {
+		lo, hi = hi, lo
+	}
+	if p.Y == hi.Y {
+		// both ends at or below the point
+		return RaycastResult{false, false}
+	}
+	if p.Y == lo.Y {
+		// crossed just above its lower end, if that end is to the right
+		return RaycastResult{p.X < lo.X, false}
 	}
 	if a.Y < b.Y {
 		if p.Y < a.Y || p.Y > b.Y {
